@@ -152,7 +152,7 @@ def rule_high_vote(ctx):
     W = Walker(ctx, f, [Atom("qualifying==1", "cmp", m_len, ["=", "!="])])
     some = [bi for bi, b in enumerate(f.blocks) for s in [b["t"]] if s["k"] == "call" and s["dest"]["l"] == 0 and "decl" in s["f"] and f.callee(s)[0].qname == "std::option::Option::map"]
     some_t = [b["t"]["t"] for bi, b in enumerate(f.blocks) if bi in some and "t" in b["t"]]
-    none = [bi for bi, b in enumerate(f.blocks) for s in b["s"] if s["k"] == "assign" and s["p"]["l"] == 0 and s["r"]["k"] == "agg" and s["r"].get("variant") == "None"]
+    none = [bi for bi, b in enumerate(f.blocks) for s in b["s"] if s["k"] == "assign" and s["p"]["l"] in Q.ret_locals(f) and s["r"]["k"] == "agg" and s["r"].get("variant") == "None"]
     names, tab = W.table({"some": some, "none": none})
     ok = tab.get(("=",)) == {"some"} and tab.get(("!=",)) == {"none"}
     ctx.ob(R, "exactly one qualifying header", ok, "Some(header) iff exactly one header reaches the subquorum" if ok else "high_vote result by number of qualifying headers: %s" % {k: sorted(v) for k, v in tab.items()}, f.loc())
@@ -247,7 +247,7 @@ def rule_proposer(ctx):
         for s in b["s"]:
             if s["k"] == "assign" and s["r"]["k"] == "agg" and s["r"].get("def") == "std::option::Option" and f.locals[s["p"]["l"]].s.endswith("Option<zksync_consensus_roles::validator::messages::block::Payload>") and not s["p"].get("pr"):
                 (none if s["r"]["variant"] == "None" else some).append(bi)
-    oks = [bi for bi, b in enumerate(f.blocks) for s in b["s"] if s["k"] == "assign" and s["p"]["l"] == 0 and s["r"]["k"] == "agg" and s["r"].get("variant") == "Ok"]
+    oks = [bi for bi, b in enumerate(f.blocks) for s in b["s"] if s["k"] == "assign" and s["p"]["l"] in Q.ret_locals(f) and s["r"]["k"] == "agg" and s["r"].get("variant") == "Ok"]
     ctx.floor(R, "propose_payload sites", len(prop), 1)
     names, tab = W.table({"propose": prop, "payload_none": none, "payload_some": some, "ok": oks})
     bad = []
